@@ -139,7 +139,7 @@ public class Drv {
 	b.WriteString("    static void setChecksums(boolean on) {\n        ChecksumServiceFactory.getInstance().clear();\n        if (!on) return;\n")
 	algs := Algs(p)
 	for _, a := range sortedKeys(algs) {
-		fmt.Fprintf(&b, "        ChecksumServiceFactory.getInstance().register(%q, (ChecksumService<ByteBuf, Integer>) buf -> { int h = 7; for (byte c : buf.toArray()) h = (h * 131 + (c & 0xff) + 1) & 0x7fffffff; return h; });\n", a)
+		fmt.Fprintf(&b, "        ChecksumServiceFactory.getInstance().register(%q, (ChecksumService<ByteBuf, Integer>) buf -> { int h = 7; for (byte c : buf.toArray()) h = (h * 131 + (c & 0xff) + 1) & 0x7fffffff; if ((h & 7) == 0) h = 0; return h; });\n", a)
 	}
 	b.WriteString("    }\n")
 	b.WriteString(`
